@@ -355,7 +355,6 @@ func (x *c07X) CloseWAF(waf coraza.WAF, c *c07Case) {
 	}
 }
 
-
 // chunks splits b according to the recorded chunk sizes (the remainder goes into a last chunk).
 func c07Chunks(b []byte, sizes []int) [][]byte {
 	var out [][]byte
